@@ -99,6 +99,10 @@ pub enum Step {
 
 #[derive(Debug, Clone, Serialize, Deserialize)]
 pub struct Case {
+    /// HTTP tail: (thread choice, stride, max_new) for POST /threads/{id}/compaction-auto on a copy
+    /// of the final store
+    #[serde(default)]
+    pub http: Option<(u16, Option<u64>, Option<u32>)>,
     pub steps: Vec<Step>,
 }
 
@@ -252,9 +256,13 @@ fn case_strategy(max_ops: usize, max_calls: usize) -> BoxedStrategy<Case> {
                 ops_strategy(weights(if profile == 3 { 0 } else { profile }), len),
                 proptest::collection::vec((any::<u16>(), call_s()), 1..max_calls),
                 prop_oneof![Just(Some(32u32)), Just(Some(33)), Just(Some(u32::MAX))],
+                prop_oneof![
+                    15 => Just(None),
+                    1 => (any::<u16>(), prop_oneof![Just(Some(1u64)), Just(Some(2)), Just(Some(3)), Just(Some(5)), Just(None)], prop_oneof![Just(None), Just(Some(1u32)), Just(Some(2)), Just(Some(3)), Just(Some(32))]).prop_map(Some),
+                ],
             )
         })
-        .prop_map(|(profile, ops, mut calls, wide_max)| {
+        .prop_map(|(profile, ops, mut calls, wide_max, http)| {
             let mut steps: Vec<Step> = ops.into_iter().map(Step::Op).collect();
             let n = steps.len();
             if profile == 3 {
@@ -275,7 +283,7 @@ fn case_strategy(max_ops: usize, max_calls: usize) -> BoxedStrategy<Case> {
             for (p, s) in inserts.into_iter().rev() {
                 steps.insert(p.min(steps.len()), s);
             }
-            Case { steps }
+            Case { steps, http }
         })
         .boxed()
 }
@@ -311,6 +319,11 @@ fn run(case: &Case) -> CaseReport {
         }
     }
     checks::end_of_case(&it, &mut rep, &mut st);
+    if let (Some((which, stride, max_new)), true) = (case.http, rep.ok()) {
+        if let Err(p) = catch(|| checks::http_tail(&it, which, stride, max_new, &mut rep, &mut st)) {
+            rep.fail("panic|http_auto", json!({"panic": p}));
+        }
+    }
     if st.auto_checkpoints > 0 && rep.ok() {
         // determinism: the same steps into a second, fresh store
         let mut b = Interp::new("c09b");
@@ -343,7 +356,7 @@ fn main() {
     check.assume("caches are never faulted here (C04); inflight_job_id is documented best-effort and not asserted; skipped_inflight is only demanded when the unfinished job's spawn frame lies well inside the documented best-effort tail window");
     check.assume("limit=0 accepts either an empty list (doc: length <= limit) or the clamp-to-1 result; limit>32 accepts clamp-to-32 or the documented limit_too_large error; schedule decision \"dry_run\" (not in the documented enum, asserted by the repository's own server test) is tolerated for dry_run=true and counted");
     check.assume("order of checkpoint frames inside a job and of `planned` lists is not documented: compared as sets; job_spawned precedes and job_ended follows all checkpoint frames of the job");
-    check.assume("HTTP surface (async job execution via spawn_blocking) is not exercised; the store-level capabilities are");
+    check.assume("the HTTP surface of compaction-auto (synchronous plan + spawn frame, job executed on the blocking pool) is exercised on a byte copy of the final store in ~6 % of the cases (a router costs 0.3 s to build); compaction-auto-schedule is exercised at store level only");
     let rule = "history from rv::store::ops_strategy (profiles: sparse / dense non-message frames / several threads; restarts) interleaved with generated compaction calls (cut_points, status, auto, schedule, manual checkpoint; strides 0,1,2,3,5,16,n-1,n,n+1,n/k,1e4,u64::MAX,default; limits/max_new 0,1,2,3,32,33,u32::MAX; immediate repeats); responses and appended frames compared with the model computed from truth just before the call; second fresh store for summary-text determinism. non-trivial = an auto/schedule call with >=1 planned cut point, or a repeat call, or a manual checkpoint on an already-checkpointed cut";
     let n = check.cases(3_000, 75_000);
     check.group("history", rule, GroupOpts { cases: n, max_shrink_iters: 500, ..Default::default() }, || case_strategy(70, 22), run);
